@@ -29,6 +29,7 @@ type hsSub struct {
 	started        bool
 	left           bool
 	stillConnected bool
+	stalled        bool
 	accepted       bool
 }
 
@@ -84,6 +85,15 @@ func hsNewHub(kind, dir, dbpath string, size uint64, tracking bool) *hsHub {
 	return &hsHub{env: hx.NewEnvWith(kind, "", dbpath, t, opts...), reg: reg}
 }
 
+func (h *hsHub) listed() int {
+	ts, ok := h.env.Transport.(mercure.TransportSubscribers)
+	if !ok {
+		return -1
+	}
+	_, l, _ := ts.GetSubscribers()
+	return len(l)
+}
+
 func (h *hsHub) metrics() (int, int, int) {
 	mfs, _ := h.reg.Gather()
 	g, st, ut := 0, 0, 0
@@ -100,6 +110,17 @@ func (h *hsHub) metrics() (int, int, int) {
 		}
 	}
 	return g, st, ut
+}
+
+// safePost: PublishHandler panics on a transport error (net/http would abort the connection): reported as 500.
+func safePost(hub *hsHub, form url.Values, hdr http.Header) (code int) {
+	defer func() {
+		if p := recover(); p != nil {
+			code = 500
+		}
+	}()
+	c, _ := hx.Post(hub.env.Hub, form, hdr)
+	return c
 }
 
 func numericIDs(body string) []string {
@@ -170,13 +191,101 @@ func runHubSeq(a args) error {
 		resultsByEpoch := [][]string{{}}
 		var metricsTerms []string
 		var metricsDesc [][3]int
+		var listedTerms []string
 		closed := false
 		var announcedIdx []int // subscribers whose active=true event could be dispatched, in order
 		nops := 6 + r.Intn(14)
 		auth := http.Header{"Authorization": {"Bearer " + admin}}
+		overflowPlan := ci%8 == 3 && !tracking // a slow subscriber is cut off while another one keeps reading
+		resumeAll := func() {
+			for i, s := range subs {
+				if s.stalled {
+					s.stalled = false
+					s.stream.W.Gate(false)
+					ops = append(ops, fmt.Sprintf("HResume %d%%nat", i))
+					opsDesc = append(opsDesc, fmt.Sprintf("resume %d", i))
+					time.Sleep(3 * time.Millisecond)
+					waitStable(s.stream.W, 200*time.Millisecond)
+					s.stream.Finished(50 * time.Millisecond)
+					g, st, ut := hub.metrics()
+					metricsTerms = append(metricsTerms, fmt.Sprintf("((%d)%%Z, %d, %d)", g, st, ut))
+					metricsDesc = append(metricsDesc, [3]int{g, st, ut})
+					listedTerms = append(listedTerms, ce.Nat(hub.listed()))
+				}
+			}
+		}
 		for k := 0; k < nops; k++ {
 			x := r.Intn(20)
+			if overflowPlan {
+				// subscribe everybody first, then stall, burst, resume
+				switch {
+				case k < nsubs:
+					x = 9
+				case k == nsubs:
+					x = 21
+				case k == nsubs+1:
+					x = 22
+				case k == nsubs+2:
+					x = 23
+				}
+			} else if r.Intn(12) == 0 {
+				x = 21 + r.Intn(3)
+			}
+			if x >= 17 && x <= 20 {
+				resumeAll() // nobody is stalled across a close or a restart
+			}
 			switch {
+			case x == 21: // a client stops reading
+				var cand []int
+				for i, s := range subs {
+					if s.started && s.accepted && !s.left && !s.stalled && !s.stream.Finished(0) {
+						cand = append(cand, i)
+					}
+				}
+				if len(cand) == 0 {
+					continue
+				}
+				i := cand[r.Intn(len(cand))]
+				subs[i].stalled = true
+				subs[i].stream.W.Gate(true)
+				ops = append(ops, fmt.Sprintf("HStall %d%%nat", i))
+				opsDesc = append(opsDesc, fmt.Sprintf("stall %d", i))
+			case x == 23: // it reads again
+				before := len(ops)
+				resumeAll()
+				if len(ops) == before {
+					continue
+				}
+				continue // resumeAll recorded its own metrics
+			case x == 22: // a burst of publishes
+				count := 2 + r.Intn(4)
+				if overflowPlan {
+					count = []int{1000, 1001, 1002, 1005}[r.Intn(4)]
+				}
+				topic := r.Pick([]string{"a", "b"})
+				first := nextID + 1
+				okAll := true
+				for c := 0; c < count; c++ {
+					nextID++
+					u := hsUpd{ID: nextID, Topics: []string{topic}}
+					code := safePost(hub, url.Values{"topic": u.Topics, "id": {fmt.Sprint(u.ID)}, "data": {"d"}}, auth)
+					published = append(published, u)
+					pubsByEpoch[epoch] = append(pubsByEpoch[epoch], u)
+					resultsByEpoch[epoch] = append(resultsByEpoch[epoch], ce.Pair(fmt.Sprint(u.ID), ce.Bool(code == 200)))
+					okAll = okAll && code == 200
+				}
+				last := hsUpd{ID: nextID, Topics: []string{topic}}
+				for _, s := range subs {
+					if s.started && s.accepted && !s.left && !s.stalled && !s.stream.Finished(0) && hsMatches(s, last) {
+						deadline := time.Now().Add(2 * time.Second)
+						for time.Now().Before(deadline) && !strings.Contains(s.stream.W.Body(), fmt.Sprintf("id: %d\n", last.ID)) && !s.stream.Finished(0) {
+							time.Sleep(200 * time.Microsecond)
+						}
+					}
+				}
+				time.Sleep(2 * time.Millisecond)
+				ops = append(ops, fmt.Sprintf("HBurst %d%%nat %d %d%%nat", epoch, first, count))
+				opsDesc = append(opsDesc, fmt.Sprintf("burst of %d publishes %d.. topic=%s all ok=%v", count, first, topic, okAll))
 			case x < 9: // publish
 				nextID++
 				u := hsUpd{ID: nextID, Topics: []string{r.Pick([]string{"a", "b"})}, Private: r.Chance(0.35)}
@@ -201,7 +310,7 @@ func runHubSeq(a args) error {
 				resultsByEpoch[epoch] = append(resultsByEpoch[epoch], ce.Pair(fmt.Sprint(u.ID), ce.Bool(code == 200)))
 				if code == 200 {
 					for _, s := range subs {
-						if s.started && s.accepted && !s.left && !s.stream.Finished(0) && hsMatches(s, u) {
+						if s.started && s.accepted && !s.left && !s.stalled && !s.stream.Finished(0) && hsMatches(s, u) {
 							deadline := time.Now().Add(300 * time.Millisecond)
 							for time.Now().Before(deadline) && !strings.Contains(s.stream.W.Body(), fmt.Sprintf("id: %d\n", u.ID)) && !s.stream.Finished(0) {
 								time.Sleep(200 * time.Microsecond)
@@ -261,7 +370,7 @@ func runHubSeq(a args) error {
 			case x < 17: // leave
 				var cand []int
 				for i, s := range subs {
-					if s.started && s.accepted && !s.left && !s.stream.Finished(0) {
+					if s.started && s.accepted && !s.left && !s.stalled && !s.stream.Finished(0) {
 						cand = append(cand, i)
 					}
 				}
@@ -301,6 +410,7 @@ func runHubSeq(a args) error {
 					g, st, ut := hub.metrics()
 					metricsTerms = append(metricsTerms, fmt.Sprintf("((%d)%%Z, %d, %d)", g, st, ut))
 					metricsDesc = append(metricsDesc, [3]int{g, st, ut})
+					listedTerms = append(listedTerms, ce.Nat(hub.listed()))
 				}
 				hub = hsNewHub(kind, dir, dbpath, size, tracking)
 				closed = false
@@ -314,7 +424,9 @@ func runHubSeq(a args) error {
 			g, st, ut := hub.metrics()
 			metricsTerms = append(metricsTerms, fmt.Sprintf("((%d)%%Z, %d, %d)", g, st, ut))
 			metricsDesc = append(metricsDesc, [3]int{g, st, ut})
+			listedTerms = append(listedTerms, ce.Nat(hub.listed()))
 		}
+		resumeAll()
 		for si, s := range subs {
 			if s.started && s.accepted && !s.left && !s.stream.Finished(0) {
 				// still connected at the end: its client leaves, as a last operation of the case
@@ -326,6 +438,7 @@ func runHubSeq(a args) error {
 				g, st, ut := hub.metrics()
 				metricsTerms = append(metricsTerms, fmt.Sprintf("((%d)%%Z, %d, %d)", g, st, ut))
 				metricsDesc = append(metricsDesc, [3]int{g, st, ut})
+				listedTerms = append(listedTerms, ce.Nat(hub.listed()))
 			}
 		}
 		history := "None"
@@ -336,7 +449,7 @@ func runHubSeq(a args) error {
 			if !closed {
 				_ = hub.env.Hub.Stop()
 			}
-			t, err := mercure.NewBoltTransport(hx.Logger, dbpath, "", size, 1)
+			stored, err := hx.BoltUpdates(dbpath)
 			if err != nil {
 				return err
 			}
@@ -350,7 +463,7 @@ func runHubSeq(a args) error {
 					announced = append(announced, i)
 				}
 			}
-			for _, u := range hx.RetainedUpdates(t) {
+			for _, u := range stored {
 				if _, err := strconv.Atoi(u.ID); err == nil {
 					ids = append(ids, u.ID)
 					histDesc = append(histDesc, u.ID)
@@ -378,7 +491,6 @@ func runHubSeq(a args) error {
 				}
 			}
 			_ = announced
-			_ = t.Close()
 			history = ce.Some("[" + strings.Join(ids, ";") + "]")
 		}
 		// observations
@@ -437,8 +549,8 @@ func runHubSeq(a args) error {
 			pubTerms = append(pubTerms, "["+strings.Join(ids, ";")+"]")
 			resTerms = append(resTerms, ce.List(resultsByEpoch[e]))
 		}
-		term := fmt.Sprintf("{| hc_persistent := %s; hc_size := %d; hc_tracking := %s; hc_cap := 1000%%nat; hc_reqs := %s; hc_pubs := %s; hc_mt := %s; hc_ops := %s; hc_subs := %s; hc_results := %s; hc_history := %s; hc_events := %s; hc_metrics := %s |}",
-			ce.Bool(kind == "bolt"), size, ce.Bool(tracking), ce.List(reqTerms), ce.List(pubTerms), ce.List(mtPairs), ce.List(ops), ce.List(subTerms), ce.List(resTerms), history, ce.List(evTerms), ce.List(metricsTerms))
+		term := fmt.Sprintf("{| hc_persistent := %s; hc_size := %d; hc_tracking := %s; hc_cap := 1000%%nat; hc_reqs := %s; hc_pubs := %s; hc_mt := %s; hc_ops := %s; hc_subs := %s; hc_results := %s; hc_history := %s; hc_events := %s; hc_metrics := %s; hc_listed := %s |}",
+			ce.Bool(kind == "bolt"), size, ce.Bool(tracking), ce.List(reqTerms), ce.List(pubTerms), ce.List(mtPairs), ce.List(ops), ce.List(subTerms), ce.List(resTerms), history, ce.List(evTerms), ce.List(metricsTerms), ce.List(listedTerms))
 		nontrivial := len(published) > 1 && len(mtPairs) > 0
 		out.Add(term, map[string]any{"transport": kind, "size": size, "tracking": tracking, "ops": opsDesc, "subscribers": subDesc, "history": histDesc, "metrics": metricsDesc},
 			nontrivial, "transport:"+kind, fmt.Sprintf("tracking:%v", tracking), fmt.Sprintf("epochs:%d", epoch+1), fmt.Sprintf("closed:%v", closed))
